@@ -14,7 +14,7 @@ empty state for a file shorter than the 4-byte counter.  The guard is re-extract
 -/
 import PromVerif.Model.MmapDict
 import PromVerif.Spec.MmapDict
-import PromVerif.Lemmas.MmapSpecial
+import PromVerif.Lemmas.MmapOrder
 
 namespace PromVerif.Props.C11
 open PromVerif.Py PromVerif.Model.MmapDict PromVerif.Generated.Mmap PromVerif.Lemmas.Mmap
@@ -40,9 +40,6 @@ def FitsAll (ops : List Op) : Prop := 8 + need [] ops < 2147483648
 /-- the file system after the first `k` effects -/
 def cut (effs : List Effect) (k : Nat) : Option Bytes := applyEffects none (effs.take k)
 
-/-- the (key, value, timestamp) triples of a reader result -/
-def tr3 (items : List Item) : Store := items.map fun x => (x.1, x.2.1, x.2.2.1)
-
 /-- shape of every history of a fresh writer: create, size, header, then the operations; every later cut is a
 represented file of a prefix state -/
 theorem run_shape (initSize : Nat) (ops : List Op) (hi : 8 ≤ initSize) (hf : FitsAll ops) :
@@ -51,7 +48,7 @@ theorem run_shape (initSize : Nat) (ops : List Op) (hi : 8 ≤ initSize) (hf : F
       ∀ s ∈ states (some (freshStore initSize).file) tr, ∃ file esx, s = some file ∧ CutRep file esx ∧
         PrefixState (ops.map toSpec) (triples esx) := by
   have hr0 := freshStore_rep initSize hi
-  obtain ⟨d, tr, hrun, hfin, hcuts⟩ := cuts_from initSize ops hr0 (by simpa [freshStore, FitsAll] using hf)
+  obtain ⟨d, tr, _, _, hrun, _, _, _, _, hfin, hcuts⟩ := cuts_from initSize ops hr0 (by simpa [freshStore, FitsAll] using hf)
   exact ⟨d, tr, by simp [run, init_fresh initSize hi, hrun, bind, Except.bind], hfin, hcuts⟩
 
 /-- the effect list of a history, replayed on an empty file system, produces exactly the file of the C10 store: the
@@ -179,23 +176,124 @@ theorem orphan_tail {file used es tail} (h : FileRep file used es tail) (k : Key
     ¬ ZeroTail (encEntry (fresh k) ++ (tail ++ zeros z).drop (entryLen k)) :=
   ⟨⟨(init_value_stages h k z hroom).1, h.used_eq, h.used_lt⟩, orphan_tail_not_zero _ _⟩
 
-/-- every key and every (value, timestamp) pair a reader returns at any cut was an argument of some operation of the
-history (or is the initial zero pair of a key the history created) -/
-theorem never_written_never_read (initSize pageSize : Nat) (ops : List Op) (hi : 8 ≤ initSize) (hp : 4 ≤ pageSize)
+/-- the effects of a longer history extend those of each of its prefixes: the cuts of the prefix are cuts of the whole -/
+theorem run_extends (initSize : Nat) (ops rest : List Op) {d2 effs2} (h : run initSize (ops ++ rest) = .ok (d2, effs2)) :
+    ∃ d1 effs1 tr, run initSize ops = .ok (d1, effs1) ∧ effs2 = effs1 ++ tr := by
+  unfold run at h ⊢
+  cases hi : init initSize [] with
+  | error e => simp [hi, bind, Except.bind] at h
+  | ok r0 =>
+    obtain ⟨d0, tr0⟩ := r0
+    simp only [hi, bind, Except.bind, runFrom_append] at h ⊢
+    cases h1 : runFrom initSize d0 ops with
+    | error e => simp [h1] at h
+    | ok r1 =>
+      obtain ⟨d1, t1⟩ := r1
+      simp only [h1] at h ⊢
+      cases h2 : runFrom initSize d1 rest with
+      | error e => simp [h2] at h
+      | ok r2 =>
+        obtain ⟨d2', t2⟩ := r2
+        simp only [h2, Except.ok.injEq, Prod.mk.injEq] at h
+        exact ⟨d1, _, t2, rfl, by rw [← h.2]; simp⟩
+
+/-- EXACTLY which states a cut inside one operation can show.  Take any history `ops` and a next operation `op` (any cut
+of any longer history `ops ++ op :: rest` that lies between the last effect of `ops` and the last effect of `op` is such
+a cut, by `run_extends`).  At every cut from the end of `ops` to the end of `op` the reader returns the state after `ops`,
+or that state plus `op`'s new key at (0, 0), or the state after `op` — nothing written later, nothing else. -/
+theorem cut_in_operation (initSize pageSize : Nat) (ops : List Op) (op : Op) (hi : 8 ≤ initSize) (hp : 4 ≤ pageSize)
+    (hf : FitsAll (ops ++ [op])) :
+    ∃ d effs d' tr, run initSize ops = .ok (d, effs) ∧ run initSize (ops ++ [op]) = .ok (d', effs ++ tr) ∧
+      ∀ j, ∃ file items, cut (effs ++ tr) (effs.length + j) = some file ∧
+        readAllValuesFromFile pageSize file = .ok items ∧
+        (tr3 items = Spec.MmapDict.run [] (ops.map toSpec) ∨
+         tr3 items = Spec.MmapDict.step (Spec.MmapDict.run [] (ops.map toSpec)) (toSpec op) ∨
+         ∃ key, (toSpec op).key? = some key ∧ (Spec.MmapDict.run [] (ops.map toSpec)).has key = false ∧
+           tr3 items = Spec.MmapDict.run [] (ops.map toSpec) ++ [(key, 0, 0)]) := by
+  have hr0 := freshStore_rep initSize hi
+  have hfit : 8 + (need [] ops + need (ops.foldl opSeen []) [op]) < 2147483648 := by
+    have := need_append ops [op] []; unfold FitsAll at hf; omega
+  obtain ⟨d, tr0, es, tail, hrun, hr, ht, hk, hu, hfin, _⟩ :=
+    cuts_from initSize ops hr0 (by simp [freshStore]; omega)
+  simp only [keys_nil, freshStore] at hk hu
+  obtain ⟨d', tr, es', tail', hstep, hr', ht', _, _, hfin', hcuts⟩ :=
+    op_cuts hr op initSize (by rw [hk, hu]; simp [need] at hfit; omega)
+  have hS : triples es = Spec.MmapDict.run [] (ops.map toSpec) := by rw [ht]; rfl
+  refine ⟨d, .createEmpty :: .truncate initSize :: .sliceWrite 0 (le 4 8) :: tr0, d', tr,
+    by simp [run, init_fresh initSize hi, hrun, bind, Except.bind],
+    by simp [run, init_fresh initSize hi, runFrom_append, hrun, runFrom, hstep, bind, Except.bind], ?_⟩
+  intro j
+  have hpre : applyEffects none (Effect.createEmpty :: .truncate initSize :: .sliceWrite 0 (le 4 8) :: tr0) = some d.file := by
+    rw [← hfin]
+    simp [applyEffects, applyEffect, truncate, sliceWrite_header_zeros initSize hi, freshStore]
+  have hcut : cut ((Effect.createEmpty :: .truncate initSize :: .sliceWrite 0 (le 4 8) :: tr0) ++ tr)
+      ((Effect.createEmpty :: .truncate initSize :: .sliceWrite 0 (le 4 8) :: tr0).length + j)
+      = applyEffects (some d.file) (tr.take j) := by
+    unfold cut
+    rw [List.take_append, List.take_of_length_le (by omega), applyEffects_append, hpre]
+    congr 2; omega
+  obtain ⟨file, hs, hc⟩ := hcuts _ (cut_mem_states (some d.file) tr j)
+  have rd : ∀ esx, CutRep file esx → readAllValuesFromFile pageSize file = .ok (scanOut 8 esx) ∧
+      tr3 (scanOut 8 esx) = triples esx := by
+    intro esx ⟨u, tl, hfr, _⟩
+    exact ⟨hfr.fromFile_ok pageSize hp, by simp only [tr3]; exact scanOut_triples esx 8⟩
+  rcases hc with hc | hc | ⟨key, hkey, hn, hc⟩
+  · exact ⟨file, _, by rw [hcut, hs], (rd _ hc).1, Or.inl (by rw [(rd _ hc).2, hS])⟩
+  · exact ⟨file, _, by rw [hcut, hs], (rd _ hc).1, Or.inr (Or.inl (by rw [(rd _ hc).2, ht', hS]))⟩
+  · refine ⟨file, _, by rw [hcut, hs], (rd _ hc).1, Or.inr (Or.inr ⟨key, by rw [toSpec_key, hkey], ?_, ?_⟩)⟩
+    · rw [← hS, has_triples]; simpa using hn
+    · rw [(rd _ hc).2, triples_append, hS]; simp [fresh]
+
+/-- never written, never read — with the completed prefix: every key and every (value, timestamp) pair a reader returns
+at a cut inside operation `op` after the completed history `ops` was an argument of an operation of `ops ++ [op]` (or is
+the initial zero pair of a key one of them created).  Nothing of what the writer does later can appear. -/
+theorem never_written_never_read (initSize pageSize : Nat) (ops : List Op) (op : Op) (hi : 8 ≤ initSize) (hp : 4 ≤ pageSize)
+    (hf : FitsAll (ops ++ [op])) :
+    ∃ d effs d' tr, run initSize ops = .ok (d, effs) ∧ run initSize (ops ++ [op]) = .ok (d', effs ++ tr) ∧
+      ∀ j file items, cut (effs ++ tr) (effs.length + j) = some file →
+        readAllValuesFromFile pageSize file = .ok items →
+        ∀ x ∈ tr3 items, Written ((ops ++ [op]).map toSpec) x.1 x.2.1 x.2.2 := by
+  obtain ⟨d, effs, d', tr, h1, h2, hall⟩ := cut_in_operation initSize pageSize ops op hi hp hf
+  refine ⟨d, effs, d', tr, h1, h2, ?_⟩
+  intro j file items hc hrd x hx
+  obtain ⟨file', items', hc', hrd', hcase⟩ := hall j
+  rw [hc] at hc'; cases hc'
+  rw [hrd] at hrd'; cases hrd'
+  have sub : ∀ o ∈ ops.map toSpec, o ∈ (ops ++ [op]).map toSpec := by intro o ho; simp at ho ⊢; exact Or.inl ho
+  rcases hcase with h | h | ⟨key, hk, _, h⟩
+  · rw [h] at hx
+    rcases mem_run _ [] x hx with h0 | hw
+    · simp at h0
+    · exact written_mono sub hw
+  · rw [h] at hx
+    have : x ∈ Spec.MmapDict.run [] ((ops ++ [op]).map toSpec) := by
+      simpa [Spec.MmapDict.run, List.foldl_append] using hx
+    rcases mem_run _ [] x this with h0 | hw
+    · simp at h0
+    · exact hw
+  · rw [h] at hx
+    rcases List.mem_append.mp hx with hx | hx
+    · rcases mem_run _ [] x hx with h0 | hw
+      · simp at h0
+      · exact written_mono sub hw
+    · simp at hx; subst hx
+      exact ⟨⟨toSpec op, by simp, hk⟩, Or.inl ⟨rfl, rfl⟩⟩
+
+/-- the cuts of the constructor (file created; sized; header written) all read as the empty state -/
+theorem constructor_cuts_read_empty (initSize pageSize : Nat) (ops : List Op) (hi : 8 ≤ initSize) (hp : 4 ≤ pageSize)
     (hf : FitsAll ops) :
-    ∃ d effs, run initSize ops = .ok (d, effs) ∧ ∀ k file items, cut effs k = some file →
-      readAllValuesFromFile pageSize file = .ok items →
-      ∀ x ∈ tr3 items, Written (ops.map toSpec) x.1 x.2.1 x.2.2 := by
-  obtain ⟨d, effs, hrun, hall⟩ := every_cut_readable initSize pageSize ops hi hp hf
-  refine ⟨d, effs, hrun, ?_⟩
-  intro k file items hc hrd x hx
-  rcases hall k with h | ⟨file', items', hc', hrd', hpre⟩
-  · rw [h.2] at hc; cases hc
-  · rw [hc] at hc'; cases hc'
-    rw [hrd] at hrd'; cases hrd'
-    rcases prefixFrom_written [] _ _ hpre x hx with h | h
-    · simp at h
-    · exact h
+    ∃ d effs, run initSize ops = .ok (d, effs) ∧ ∀ k, 1 ≤ k → k ≤ 3 →
+      ∃ file, cut effs k = some file ∧ readAllValuesFromFile pageSize file = .ok [] := by
+  obtain ⟨d, tr, hrun, _, _⟩ := run_shape initSize ops hi hf
+  refine ⟨d, _, hrun, ?_⟩
+  intro k h1 h3
+  have hfr := (freshStore_rep initSize hi).file
+  obtain rfl | rfl | rfl : k = 1 ∨ k = 2 ∨ k = 3 := by omega
+  · exact ⟨[], rfl, fromFile_empty pageSize⟩
+  · exact ⟨zeros initSize, by simp [cut, applyEffects, applyEffect, truncate], fromFile_zeros pageSize initSize (by omega) hp⟩
+  · exact ⟨(freshStore initSize).file,
+      by simp [cut, applyEffects, applyEffect, truncate, sliceWrite_header_zeros initSize hi, freshStore],
+      by simpa [scanOut] using hfr.fromFile_ok pageSize hp⟩
 
 /-- a value update of an existing key is ONE effect, a 16-byte slice write at the key's value field: the file goes from
 the old state directly to the new one (never through a zeroed field) -/
@@ -240,6 +338,156 @@ theorem scrape_ok_of_shapes (pageSize : Nat) (hp : 4 ≤ pageSize) (files : List
   · exact ⟨_, hfr.fromFile_ok pageSize hp⟩
   · exact ⟨_, fromFile_zeros pageSize n hn hp⟩
   · exact ⟨_, fromFile_short pageSize f hs⟩
+
+/-! ### a reader whose two `read()` calls see the file at two different cuts -/
+
+/-- THE TWO-CUT READ.  `read_all_values_from_file` reads the first block (and with it the header) and, if the header says
+so, the rest with a second `read()`.  Let the first read see the file at cut `k1` and the second at any later cut `k2`
+(8-aligned page size, as every real one).  Then the reader still succeeds; it returns exactly the KEYS an atomic read at
+`k1` returns — the entries the header it read covers, never an unpublished entry; and every value and every timestamp it
+returns is one that an atomic read at `k1` or at `k2` returns for that key (both of which are prefix states by
+`every_cut_readable`).  For the one entry that crosses the page boundary value and timestamp may come from different cuts. -/
+theorem two_cut_read (initSize pageSize : Nat) (ops : List Op) (hi : 8 ≤ initSize) (hp8 : 8 ≤ pageSize)
+    (hpm : pageSize % 8 = 0) (hf : FitsAll ops) :
+    ∃ d effs, run initSize ops = .ok (d, effs) ∧ ∀ k1 k2, 1 ≤ k1 → k1 ≤ k2 →
+      ∃ f1 f2 items items1 items2, cut effs k1 = some f1 ∧ cut effs k2 = some f2 ∧
+        readAllValuesFromFile pageSize f1 = .ok items1 ∧ readAllValuesFromFile pageSize f2 = .ok items2 ∧
+        readAllValuesFromFile2 pageSize f1 f2 = .ok items ∧
+        (tr3 items).map (·.1) = (tr3 items1).map (·.1) ∧
+        ∀ x ∈ tr3 items,
+          (∃ a, (a ∈ tr3 items1 ∨ a ∈ tr3 items2) ∧ a.1 = x.1 ∧ a.2.1 = x.2.1) ∧
+          (∃ b, (b ∈ tr3 items1 ∨ b ∈ tr3 items2) ∧ b.1 = x.1 ∧ b.2.2 = x.2.2) := by
+  have hp : 4 ≤ pageSize := by omega
+  have hr0 := freshStore_rep initSize hi
+  obtain ⟨d, tr, es', hrun, hmono⟩ := mono_from initSize ops hr0 (by simpa [freshStore, FitsAll] using hf)
+  refine ⟨d, .createEmpty :: .truncate initSize :: .sliceWrite 0 (le 4 8) :: tr,
+    by simp [run, init_fresh initSize hi, hrun, bind, Except.bind], ?_⟩
+  intro k1 k2 h1 h12
+  -- the cut at k2 exists and is readable (it is some cut of the same effect list)
+  have cutk : ∀ k, 3 ≤ k → cut (Effect.createEmpty :: .truncate initSize :: .sliceWrite 0 (le 4 8) :: tr) k
+      = applyEffects (some (freshStore initSize).file) (tr.take (k - 3)) := by
+    intro k hk
+    obtain ⟨j, rfl⟩ : ∃ j, k = j + 3 := ⟨k - 3, by omega⟩
+    simp [cut, applyEffects, applyEffect, truncate, sliceWrite_header_zeros initSize hi, freshStore]
+  have rd2 : ∃ f2 items2, cut (Effect.createEmpty :: .truncate initSize :: .sliceWrite 0 (le 4 8) :: tr) k2 = some f2 ∧
+      readAllValuesFromFile pageSize f2 = .ok items2 := by
+    rcases cut_cases initSize tr hi k2 with h | h | h | h
+    · omega
+    · exact ⟨_, _, h.2, fromFile_empty pageSize⟩
+    · exact ⟨_, _, h.2, fromFile_zeros pageSize initSize (by omega) hp⟩
+    · obtain ⟨g, e, hg, ⟨u, tl, hfr, _⟩, _, _⟩ := hmono.at (k2 - 3)
+      exact ⟨g, _, by rw [cutk k2 h.1, hg], hfr.fromFile_ok pageSize hp⟩
+  obtain ⟨f2, items2, hc2, hrd2⟩ := rd2
+  rcases cut_cases initSize tr hi k1 with h | h | h | h
+  · omega
+  · -- zero-length first snapshot: the guard returns the empty state
+    refine ⟨[], f2, [], [], items2, h.2, hc2, fromFile_empty pageSize, hrd2, ?_, rfl, by intro x hx; cases hx⟩
+    have : shortFile ([] : Bytes) = true := shortFile_true (by simp)
+    simp [readAllValuesFromFile2, this]
+  · -- all-zero first snapshot: header 0, nothing is read
+    refine ⟨zeros initSize, f2, [], [], items2, h.2, hc2, fromFile_zeros pageSize initSize (by omega) hp, hrd2, ?_, rfl,
+      by intro x hx; cases hx⟩
+    have h0 := unpackInt_zeros (min pageSize initSize) (by omega)
+    have hsf : shortFile (zeros (min pageSize initSize)) = false := shortFile_false (by simp; omega)
+    have : ¬ ((0 : Int) > ((zeros (min pageSize initSize)).length : Int)) := by omega
+    unfold readAllValuesFromFile2
+    simp only [take_zeros, hsf, Bool.false_eq_true, if_false, h0, bind, Except.bind, this]
+    unfold readAllValuesRaw
+    simp [h0, bind, Except.bind]
+  · obtain ⟨g1, e1, g2, e2, hg1, ⟨u1, tl1, hf1, _⟩, hg2, ⟨u2, tl2, hf2, _⟩, hext⟩ := hmono.pair (k1 - 3) (k2 - 3) (by omega)
+    have hk2 : 3 ≤ k2 := by omega
+    rw [cutk k2 hk2, hg2] at hc2; cases hc2
+    rw [hf2.fromFile_ok pageSize hp] at hrd2; cases hrd2
+    obtain ⟨a, esM, _, ha, hmix, hread⟩ := two_snapshot_read pageSize hf1 hf2 hext hp8 hpm
+    refine ⟨g1, f2, scanOut 8 esM, scanOut 8 e1, scanOut 8 e2, by rw [cutk k1 h.1, hg1], by rw [cutk k2 hk2, hg2],
+      hf1.fromFile_ok pageSize hp, hf2.fromFile_ok pageSize hp, hread, ?_, ?_⟩
+    · simp only [tr3]; rw [scanOut_triples, scanOut_triples, triples_keys, triples_keys, hmix.keys_eq]
+    · simp only [tr3]; rw [scanOut_triples, scanOut_triples, scanOut_triples]
+      intro x hx
+      obtain ⟨e, he, rfl⟩ := List.mem_map.mp hx
+      obtain ⟨⟨y, hy, hy1, hy2⟩, ⟨z, hz, hz1, hz2⟩⟩ := hmix.prov e he
+      have sub : ∀ w, (w ∈ e1 ∨ w ∈ a) → ((w.key, w.v, w.t) ∈ triples e1 ∨ (w.key, w.v, w.t) ∈ triples e2) := by
+        intro w hw
+        rcases hw with hw | hw
+        · exact Or.inl (List.mem_map.mpr ⟨w, hw, rfl⟩)
+        · exact Or.inr (List.mem_map.mpr ⟨w, by rw [← ha] at hw; exact List.mem_of_mem_take hw, rfl⟩)
+      exact ⟨⟨_, sub y hy, hy1, hy2⟩, ⟨_, sub z hz, hz1, hz2⟩⟩
+
+/-! ### any number of generations: crash → reopen by a new writer → continue → crash again → … -/
+
+/-- EVERY file reachable by any number of generations (`Reach`: start from no file; a writer opens what is there, runs any
+history that fits, stops dead after any number of file effects; repeat) is readable by the collector and can be taken
+over by yet another writer, whose store satisfies the crash-tolerant invariant -/
+theorem every_cut_readable_gen (initSize pageSize : Nat) (hi : 8 ≤ initSize) (hp : 4 ≤ pageSize) {f : Option Bytes}
+    (h : Reach f) :
+    f = none ∨ ∃ file items d' tr' es tl, f = some file ∧ readAllValuesFromFile pageSize file = .ok items ∧
+      init initSize file = .ok (d', tr') ∧ Rep d' es tl := by
+  have hg := reach_good h
+  cases f with
+  | none => exact Or.inl rfl
+  | some file =>
+    obtain ⟨⟨items, hrd⟩, d', tr', es, tl, hinit, hr⟩ := good_usable initSize pageSize hi hp hg
+    exact Or.inr ⟨file, items, d', tr', es, tl, rfl, hrd, hinit, hr⟩
+
+/-- … and what is read at a cut of generation n+1 is a prefix state of THAT generation's history, started from what its
+writer found in the file left by generation n (`contentOf`: what the reader returns on it) -/
+theorem gen_cut_prefix_state (initSize pageSize : Nat) (hi : 8 ≤ initSize) (hp : 4 ≤ pageSize) {f : Option Bytes}
+    (h : Reach f) (ops : List Op) (hfit : GenFits initSize f ops) (k : Nat) :
+    Reach (genCut initSize f ops k) ∧
+    ∀ file, genCut initSize f ops k = some file → ∃ items, readAllValuesFromFile pageSize file = .ok items ∧
+      PrefixFrom (contentOf pageSize f) (ops.map toSpec) (tr3 items) :=
+  ⟨Reach.crash initSize hi ops k h hfit, (genCut_ok initSize pageSize hi hp (reach_good h) ops hfit k).2⟩
+
+/-- the scrape over any number of worker files, each after any number of generations -/
+theorem scrape_ok_gen (pageSize : Nat) (hp : 4 ≤ pageSize) (files : List Bytes) (h : ∀ f ∈ files, Reach (some f)) :
+    ∃ r, readMetrics pageSize files = .ok r := by
+  apply readMetrics_ok
+  intro f hf
+  exact (good_usable 8 pageSize (by omega) hp (reach_good (h f hf))).1
+
+/-- a fresh writer's history is the first generation -/
+example (ops : List Op) (k : Nat) (hf : GenFits 64 none ops) : Reach (genCut 64 none ops k) :=
+  Reach.crash 64 (by decide) ops k Reach.start hf
+
+/-! ### files that vanish between the directory listing and the read -/
+
+/-- every file name `mark_process_dead` removes (`gauge_<mode>_<pid>.db`, mode starting with `live` — both extracted from
+multiprocess.py) is one whose disappearance `_read_metrics` tolerates -/
+theorem removed_files_are_tolerated (mode : List Char) (h : removeModePrefix.isPrefixOf mode = true) :
+    tolerated removeTyp mode = true := by
+  simp only [tolerated, removeTyp, vanishTyp, removeModePrefix, vanishModePrefix] at h ⊢
+  simp [h]
+
+/-- the scrape over a listing in which live-gauge files have vanished and every remaining file is at any cut of any
+generation: it succeeds, and returns one result per file that is still there (the vanished ones are skipped) -/
+theorem scrape_skips_vanished_live_gauges (pageSize : Nat) (hp : 4 ≤ pageSize) (listed : List Listed)
+    (h : ∀ f ∈ listed, match f.content with
+      | some b => Reach (some b)
+      | none => tolerated f.typ f.mode = true) :
+    ∃ r, readMetricsListed pageSize listed = .ok r ∧ r.length = (listed.filter (·.content.isSome)).length := by
+  induction listed with
+  | nil => exact ⟨[], rfl, rfl⟩
+  | cons f rest ih =>
+    obtain ⟨r, hr, hl⟩ := ih (fun g hg => h g (List.mem_cons_of_mem _ hg))
+    have hf := h f (by simp)
+    cases hc : f.content with
+    | none =>
+      simp only [hc] at hf
+      exact ⟨r, by simp [readMetricsListed, hc, hf, hr, vanishCaught], by simp [hc, hl]⟩
+    | some b =>
+      simp only [hc] at hf
+      obtain ⟨items, hi⟩ := (good_usable 8 pageSize (by omega) hp (reach_good hf)).1
+      exact ⟨items :: r, by simp [readMetricsListed, hc, hi, hr, bind, Except.bind], by simp [hc, hl]⟩
+
+/-- what the code does for any OTHER vanished file: FileNotFoundError escapes and ends the scrape.  This does not
+contradict the property under the stated assumption that nobody but `mark_process_dead` removes worker files
+(`removed_files_are_tolerated`: it removes tolerated names only); see obligations/C11.json. -/
+theorem other_vanished_file_escapes (pageSize : Nat) (f : Listed) (rest : List Listed) (hc : f.content = none)
+    (ht : tolerated f.typ f.mode = false) : readMetricsListed pageSize (f :: rest) = .error .fileNotFound := by
+  simp [readMetricsListed, hc, ht]
+
+example : tolerated "gauge".toList "liveall".toList = true ∧ tolerated "gauge".toList "all".toList = false ∧
+    tolerated "counter".toList "123.db".toList = false := by decide
 
 /-! ### non-vacuity -/
 
